@@ -709,3 +709,9 @@ void h_advance_tail_int(void) {
   FOR_K(advance_tail_int_case(k_));
 #endif
 }
+
+/* static fact: the slot word keeps all pointer bits (see obligation kfq.slot.any_pointer) */
+void h_slot_word(void) {
+  XV_OBL("kfq.slot.any_pointer", XV_SLOT_MARK_BITS <= XV_MAX_UPPER_MARK_BITS);
+  XV_CANARY("slot_word.reached");
+}
